@@ -117,8 +117,11 @@ class Position(NamedTuple):
 
     def line_of(self) -> str:
         """Return the line of text that contains this position."""
-        line_number, _ = self.line_col()
-        return self.text[line_number - 1]
+        start = self.text.rfind("\n", 0, self.pos) + 1
+        end = self.text.find("\n", self.pos)
+        if end == -1:
+            return self.text[start:]
+        return self.text[start : end + 1]
 
 
 class Pair:
